@@ -242,6 +242,8 @@ class EvalMixin:
             return v.methods["__str__"](self)
         if is_symint(v):
             return Opaque("str(int)", attrs={"int": v})
+        if isinstance(v, (list, tuple)) and all(isinstance(x, (str, int, bool, float)) or x is None for x in v):
+            return str(v)  # containers of plain python scalars render exactly as in CPython
         if isinstance(v, (list, tuple, set, dict)):
             return Opaque("str")
         return Opaque("str")
